@@ -101,3 +101,17 @@ class FakeIO:
 
     def __getattr__(self, name):
         return getattr(self._real, name)
+
+
+def notrace():
+    """Context manager: suspend CrossHair's tracing for purely concrete set-up code (building routers, apps ...).
+    Tracing concrete code costs ~100x; nothing symbolic may be touched inside."""
+    if CONCRETE:
+        import contextlib
+        return contextlib.nullcontext()
+    try:
+        from crosshair.tracers import NoTracing
+        return NoTracing()
+    except Exception:  # pragma: no cover
+        import contextlib
+        return contextlib.nullcontext()
